@@ -499,6 +499,28 @@ impl Tables {
         if self.adts.contains_key(name) {
             return Some(Ty::Adt(name.to_string()));
         }
+        if !name.contains('.') {
+            // a configured type DEFINED in the current file (under a module-qualified key) comes before a global abstract type
+            // (`mtype` / `extern`) of the same name
+            let sfx = format!(".{}", name);
+            let here: Vec<&String> = self
+                .adts
+                .iter()
+                .filter(|(k, a)| {
+                    k.ends_with(&sfx) && {
+                        let origin = match a {
+                            Adt::Struct(s) => s.origin.clone(),
+                            Adt::Enum(e) => e.origin.clone(),
+                        };
+                        origin.split(':').next().unwrap() == cur_file
+                    }
+                })
+                .map(|(k, _)| k)
+                .collect();
+            if here.len() == 1 && self.externs.contains_key(name) {
+                return Some(Ty::Adt(here[0].clone()));
+            }
+        }
         if self.externs.contains_key(name) {
             return Some(Ty::Extern(name.to_string()));
         }
